@@ -142,6 +142,12 @@ func (r *R) Want(caseKey string) bool {
 
 func (r *R) Replaying() bool { return r.only != "" }
 
+// OnlyCase returns the case key being replayed ("" when exploring).
+func (r *R) OnlyCase() string { return r.only }
+
+// Deadline returns the internal deadline (zero when none).
+func (r *R) Deadline() time.Time { return r.deadline }
+
 // Expired reports that the internal deadline has passed; the harness must stop
 // enumerating, and the result is marked non-exhaustive.
 func (r *R) Expired() bool {
